@@ -63,6 +63,20 @@ func genH2C(fns []string) func(t *rapid.T) caseH2C {
 		c := caseH2C{Fn: rapid.SampledFrom(fns).Draw(t, "fn"), Msg: hex.EncodeToString(msg), Dst: hex.EncodeToString(dst),
 			MsgLay: gen.LayoutGen().Draw(t, "ml"), DstLay: gen.LayoutGen().Draw(t, "dl")}
 		c.Same = gen.Chance(t, "sameSlice", 1, 20)
+		if ds := gen.Dict().Strings; len(ds) > 0 && gen.Chance(t, "dictString", 1, 10) {
+			// tags and prefixes the code itself compares and prepends (string literals of the tree under test), as the DST or the
+			// message, alone or followed by more bytes: such strings are not reserved for the library
+			lit := ds[gen.Pick(t, "lit", len(ds))]
+			ext := append(append([]byte{}, lit...), gen.Bytes(0, 20).Draw(t, "litExt")...)
+			switch gen.Pick(t, "litWhere", 4) {
+			case 0:
+				c.Dst = hex.EncodeToString(lit)
+			case 1, 2:
+				c.Dst = hex.EncodeToString(ext)
+			default:
+				c.Msg = hex.EncodeToString(ext)
+			}
+		}
 		switch gen.Pick(t, "special", 60) {
 		case 57:
 			c.Dst, c.NilDst = "", true
